@@ -413,7 +413,7 @@ func c19Run(b core.Batch, r *core.Recorder) {
 func c19Plan(tier string, seed int64) []core.Batch {
 	depth, rnd, bursts, reps := 6, 200, 40, 2
 	if tier == "thorough" {
-		depth, rnd, bursts, reps = 8, 3000, 300, 10
+		depth, rnd, bursts, reps = 8, 10000, 1500, 30
 	}
 	var bs []core.Batch
 	for p := 0; p < 4; p++ {
@@ -438,6 +438,6 @@ func init() {
 		Plan:        c19Plan,
 		Run:         c19Run,
 		Parallel:    5,
-		Floors:      map[string]map[string]int64{"quick": {"set_sequences_matching_model": 1500, "bursts_judged": 200, "shutdown_orders_checked": 30, "policy_switch_checks": 30}, "thorough": {"set_sequences_matching_model": 10000, "bursts_judged": 1500, "shutdown_orders_checked": 150, "policy_switch_checks": 250}},
+		Floors:      map[string]map[string]int64{"quick": {"set_sequences_matching_model": 1500, "bursts_judged": 200, "shutdown_orders_checked": 30, "policy_switch_checks": 30}, "thorough": {"set_sequences_matching_model": 10000, "bursts_judged": 8000, "shutdown_orders_checked": 500, "policy_switch_checks": 1200}},
 	})
 }
